@@ -267,11 +267,21 @@ func c14(c *ctx) {
 	// '9' in ASCII, signs, blanks, numbers that wrap around 2^32 / 2^64 onto a valid one)
 	vals := []string{"", "7", "8", "15", "16", "x", "08", "150", "1", "0", ":", ";", "<", "=", ">", "?", "1:", "1.", "1/", "9:", "+8", "-8", "8 ", " 8", "8.0", "0x8", "010",
 		"4294967304", "18446744073709551624", "18446744073709551626", "١٠"}
+	// every number up to 300 (three-digit numbers that wrap around 2^8 onto a valid one are among them),
+	// and the same around 2^9, 2^16
+	for i := 17; i <= 300; i++ {
+		vals = append(vals, fmt.Sprint(i))
+	}
+	for _, base := range []int{512, 1024, 65536, 1 << 24} {
+		for _, d := range []int{8, 12, 15} {
+			vals = append(vals, fmt.Sprint(base+d))
+		}
+	}
 	tokenSafe := regexp.MustCompile(`^[A-Za-z0-9.+-]*$`)
 	for _, nm := range names {
 		for _, v := range vals {
 			parseRecord(fmt.Sprintf("parse/val/%s/%s", nm, v), []kv{{nm, v}})
-			if !tokenSafe.MatchString(v) {
+			if !tokenSafe.MatchString(v) || len(v) == 3 && v != "150" && v[1:] != "64" && v[1:] != "71" {
 				continue // (duplicates are produced from header text: only values that need no quoting)
 			}
 			for _, v2 := range []string{"", "10"} {
